@@ -397,3 +397,9 @@ ADDENDA_R7 = {
     "C17": ("R17.8", "Filename::standardize pops a component only if the list is not empty and its last element is not `..`", "gated reachability"),
     "C18": ("R18.8", "WriteExponent writes the decimal text of every possible exponent (interpreter with pointers into the output buffer and the digit table)", "abstract execution of a function body, exhaustive over the exponent range"),
 }
+
+
+# After round 7 (repairs of F-C15k and F-C15u; DESIGN.md sections 0 and 4).
+ADDENDA_R8 = {
+    "C15": ("R15.14 (guard-object form), R15.24", "the recursion guard of the class-trait predicates may be a scoped guard object over a function-static set, whose class is itself judged (registers, answers, unregisters); the class hierarchy is acyclic by construction: only frozen writers touch _derivation, every base comes from a class_derivation_name action, and those assign a looked-up type only where the cycle predicate answered false (found F-C15u)", "who-may-write table, gated reachability in the generated parser's action cases (bison's case numbering), structural obligations on the predicate"),
+}
